@@ -7,6 +7,7 @@ application), idempotence, and the exact differential  expand(compact_routine(c)
 from __future__ import annotations
 
 import itertools
+import json
 import sys
 
 import numpy as np
@@ -70,7 +71,22 @@ def plan(tier, seed):
                 g.append(dict(pre, kind=kind, routine=rout, level=level))
         groups.append(g)
     groups.sort(key=lambda g: -abs(SM.det3(g[0]["S"])) * len(X.by_name()[g[0]["xtal"]]["symbols"]))
-    meta = {"alphabet": {"prefixes": len(groups), "kinds": KINDS, "routines": ROUTINES, "levels": levels, "S": len(S_SET)},
+    # process history: two different supercells of the same size one after the other in one process (anything cached per
+    # process must be keyed by everything it depends on).  All ordered pairs of equal-volume supercells of S_SET.
+    nseq = 0
+    cr = X.by_name()
+    for name in (["NaCl-prim-2", "hcp-2", "tri-P1-3"] if tier == "quick" else ["NaCl-prim-2", "hcp-2", "tri-P1-3", "sc-1", "rutile-6", "CsCl-2", "mono-P21-2"]):
+        for Sa, Sb in itertools.permutations(S_SET, 2):
+            da, db = abs(SM.det3(Sa)), abs(SM.det3(Sb))
+            if da != db or da == 1 or da * len(cr[name]["symbols"]) > 32:
+                continue
+            g = []
+            for S in (Sa, Sb):
+                for kind, rout in itertools.product(("sym+drift", "periodic-random"), ("compact/C", "api/compact", "full/C")):
+                    g.append({"xtal": name, "variant": "as-is", "S": S, "pm": "none", "kind": kind, "routine": rout, "level": 1, "after": Sa if S is Sb else None})
+            groups.append(g)
+            nseq += 1
+    meta = {"alphabet": {"prefixes": len(groups) - nseq, "supercell_sequences": nseq, "kinds": KINDS, "routines": ROUTINES, "levels": levels, "S": len(S_SET)},
             "bound": "complete product", "exhaustive": True, "not_covered": ["supercells above the atom cap"]}
     return groups, meta
 
@@ -149,9 +165,16 @@ class _HideExt:
 
 
 def run_group(cases, seed):
-    c = phx.xtal(cases[0]["xtal"], cases[0]["variant"], seed)
-    st = {}
-    return [run_case(case, seed, c, st) for case in cases]
+    out = []
+    key = None
+    for case in cases:
+        k = (case["xtal"], case["variant"], json.dumps(case["S"]), case["pm"])
+        if k != key:
+            key = k
+            c = phx.xtal(case["xtal"], case["variant"], seed)
+            st = {}
+        out.append(run_case(case, seed, c, st))
+    return out
 
 
 def run_case(case, seed, c, st):
@@ -332,6 +355,22 @@ def run_case(case, seed, c, st):
             cz = FC.full_fc_to_compact_fc(ph.primitive, y)
             if np.abs(cz - cx).max() > 0:
                 return fail("compact-full-compact", "compact->full->compact not identity")
+            # the full array in other memory layouts (a (3N,3N) Hessian viewed as (N,N,3,3); Fortran order): same compact array,
+            # and the compiled compact routines, which read the raw buffer, see the same numbers
+            H = np.ascontiguousarray(x.transpose(0, 2, 1, 3).reshape(3 * ns, 3 * ns))
+            views = {"hessian-view": H.reshape(ns, 3, ns, 3).transpose(0, 2, 1, 3), "fortran-order": np.asfortranarray(x)}
+            want = np.array(cx, dtype="double", order="C")
+            FC.symmetrize_compact_force_constants(want, ph.primitive, level=1)
+            for nm, xv in views.items():
+                assert np.array_equal(xv, x)
+                c2 = FC.full_fc_to_compact_fc(ph.primitive, xv)
+                trans += 1
+                if not np.array_equal(np.asarray(c2), np.asarray(cx)):
+                    return fail("layout/compact-values", "full_fc_to_compact_fc of the same numbers stored as %s differs" % nm)
+                FC.symmetrize_compact_force_constants(c2, ph.primitive, level=1)
+                e = np.abs(np.asarray(c2) - want).max() / scale
+                if e > TOL:
+                    return fail("layout/compact-symmetrize", "compact force constants made from a %s array symmetrise differently (by %.3g): the compiled routine does not see the same numbers" % (nm, e), e)
             return dict(ok=True, transitions=trans, nontrivial=nontriv, outcome="ok:" + rout)
     except Exception as e:
         import traceback
